@@ -33,7 +33,7 @@ PROP = "C10"
 def run(ctx):
     repo = ctx.repo
     res = Result(PROP)
-    res.rules = ["T-KEYS", "T-DEF", "T-ATTRS", "T-CAST", "T-SIBLING", "T-ROLE", "T-NPID", "T-FLOW"]
+    res.rules = ["T-KEYS", "T-DEF", "T-ATTRS", "T-CAST", "T-SIBLING", "T-ROLE", "T-NPID", "T-FLOW", "T-DOM"]
     res.explanation = (
         "Narrow claim: finite tables (keys, enumerations, literal maps) are extracted from the writer and the reader of "
         "each dict format and compared; definite assignment of unconditionally-read keys; sibling comparison of the "
@@ -46,6 +46,16 @@ def run(ctx):
     check_role(repo, res)
     check_npid(repo, res)
     check_flow(repo, res)
+    # T-DOM: converters that regroup incidences into several per-side / per-kind maps must visit the union of their keys
+    from .common import one_sided_key_domain, pattern_lint
+
+    conv = [f for mn, mi in sorted(repo.modules.items()) if mn.startswith("xgi.convert.") for _, f in sorted(mi.functions.items())]
+    if len(conv) < 20:
+        raise AnalysisError(f"only {len(conv)} converter functions found (anchor vanished)")
+    pattern_lint(res, PROP, "T-DOM", conv, one_sided_key_domain,
+                 "def f(rows):\n    tail = {}\n    head = {}\n    for n, e, d in rows:\n        if d == 'in':\n            tail.setdefault(e, []).append(n)\n        else:\n            head.setdefault(e, []).append(n)\n    return {e: (tail[e], head[e]) for e in tail}\n",
+                 lambda nd: f"`{unparse(nd, 40)}` is read inside an iteration over the keys of another map that was filled under different conditions; an ID that only ever reached `{unparse(nd.value, 20)}` (for instance an edge with an empty tail, or a node that occurs only there) is never visited and silently disappears from the converted network",
+                 "joint reads of sibling maps over a one-sided key domain")
     return res
 
 
